@@ -29,3 +29,20 @@ Theorem c05_lex_render :
   forall ts, Forall (fun t => token_ok t = true) ts -> lex (unlines (map render_token ts)) = Some ts.
 Proof. exact lex_render. Qed.
 Print Assumptions c05_lex_render.
+
+(** The printer inside the model (Puml/Linearise.v): on the canonical graph of a well-formed diagram the DFS
+    linearisation prints exactly the grammar; a graph recognised as a block graph prints a parsable text. *)
+From V Require Import Puml.Linearise Puml.LineariseCheck Puml.LineariseProofs.
+Theorem c05_linearise_graph_of : forall name d,
+  wf d = true -> lin_ok d = true -> linearise name (graph_of d) = Some (print name d).
+Proof. exact linearise_graph_of. Qed.
+Print Assumptions c05_linearise_graph_of.
+
+Theorem c05_is_block_graph_sound : forall name g d,
+  is_block_graph g = Some d -> linearise name g = Some (print name d).
+Proof. exact is_block_graph_sound. Qed.
+Print Assumptions c05_is_block_graph_sound.
+
+Theorem c05_lin_agrees_sound : forall name g ts, lin_agrees name g ts = true -> linearise name g = Some ts.
+Proof. exact lin_agrees_sound. Qed.
+Print Assumptions c05_lin_agrees_sound.
